@@ -696,7 +696,7 @@ class Decoder(wiring.Component):
         m = Module()
 
         # See Multiplexer.elaborate above.
-        r_data_fanin = 0
+        r_data_fanin = []
 
         with m.Switch(self.bus.addr):
             for sub_map, sub_name, (sub_pat, sub_ratio) in self.bus.memory_map.window_patterns():
@@ -707,13 +707,13 @@ class Decoder(wiring.Component):
 
                 # The CSR bus interface is defined to output zero when idle, allowing us to avoid
                 # adding a multiplexer here.
-                r_data_fanin |= sub_bus.r_data
+                r_data_fanin.append(sub_bus.r_data)
                 m.d.comb += sub_bus.w_data.eq(self.bus.w_data)
 
                 with m.Case(sub_pat):
                     m.d.comb += sub_bus.r_stb.eq(self.bus.r_stb)
                     m.d.comb += sub_bus.w_stb.eq(self.bus.w_stb)
 
-        m.d.comb += self.bus.r_data.eq(r_data_fanin)
+        m.d.comb += self.bus.r_data.eq(_or_reduce(r_data_fanin))
 
         return m
